@@ -88,12 +88,15 @@ Enter(kind, o) ==
   /\ lastOk' = lastOk
 
 \* an operation in the body of the innermost context (renders, requests, triggers); transient effects only
-Op(name) ==
+\* a render has a shape: small / exactly the screen / taller than the screen (a CursorAwareWindow scrolls, the cursor's
+\* line may leave the screen) / empty.  Every render hides and shows the cursor again when hide_cursor is off.
+Op(name, shape) ==
   /\ stack # <<>>
+  /\ (name = "render") = (shape # "")
   /\ LET top == stack[Len(stack)] IN
        \/ name = "render" /\ top.kind \in {"Fullscreen", "CursorAware"}
        \/ name \in {"request", "request_key", "request_paste", "trigger", "sched"} /\ top.kind = "Input"
-  /\ hist' = Append(hist, [k |-> "op", name |-> name])
+  /\ hist' = Append(hist, [k |-> "op", name |-> name, shape |-> shape])
   /\ UNCHANGED <<res, stack, nextInput, lastOk>>
 
 ExitTop(how) ==
@@ -109,7 +112,8 @@ ExitTop(how) ==
 Next ==
   /\ steps < MaxSteps /\ steps' = steps + 1
   /\ \/ \E kind \in Kinds : \E o \in Opts(kind) : Enter(kind, o)
-     \/ \E name \in {"render", "request", "request_key", "request_paste", "trigger", "sched"} : Op(name)
+     \/ \E name \in {"request", "request_key", "request_paste", "trigger", "sched"} : Op(name, "")
+     \/ \E shape \in {"small", "full", "tall", "empty"} : Op("render", shape)
      \/ ExitTop("exit")
      \/ ExitTop("raise")          \* an exception leaves the innermost context; the next step continues unwinding or not
 Spec == Init /\ [][Next]_vars
